@@ -1,5 +1,7 @@
 """Registry: which units serve which property, and the level each property is claimed at."""
 REGISTRY = {
     'C19': ['atomic'],
+    'C01': ['base_core'],
+    'C06': ['base_core'],
 }
 LEVEL = {'C04': 'other'}
